@@ -145,8 +145,17 @@ def c20_1(ctx, r):
             tnames = {x.id for x in ast.walk(lp.target) if isinstance(x, ast.Name)}
             if name in tnames:
                 e = lp.iter
+                direct = False
                 while isinstance(e, (ast.Call, ast.Attribute, ast.Subscript)):
+                    if isinstance(e, ast.Call):
+                        st0 = ctx.cg.site_of(fn, e)
+                        if st0 is not None and any(st0.calls_short(ctx.ix, f"ResourceMonitorAggregator.{m}") for m in ("_get_stats", "_get_process_stats")):
+                            direct = True   # the reading is taken in the loop header itself
+                            break
                     e = e.func if isinstance(e, ast.Call) else e.value
+                if direct:
+                    src_ok, origin = True, ast.unparse(lp.iter)
+                    break
                 if not isinstance(e, ast.Name):
                     origin = ast.unparse(lp.iter)
                     break
